@@ -695,6 +695,8 @@ def gen_cases(ctx, rng, bases, per_class, n_synth=0):
     for k in range(n_synth):
         synth.append(synth_dict(synth_xml(rng), k))
     for D in list(dicts().values()) + synth:
+        if D.idx == 2:
+            bases, per_class = 2, 1
         for mt in D.msgs:
             paths = group_paths(D.msgs[mt])
             deep = [p for p in paths if len(p) == max(len(q) for q in paths)] if paths else [()]
@@ -795,7 +797,7 @@ def evaluate(ctx, cases, use_model=True):
 def run(ctx):
     t0 = time.time()
     rng = ctx.rng
-    cases = corpus() + gen_cases(ctx, rng, ctx.scale(2, 6), ctx.scale(1, 3), n_synth=ctx.scale(60, 600))
+    cases = corpus() + gen_cases(ctx, rng, ctx.scale(2, 6), ctx.scale(1, 3), n_synth=ctx.scale(60, 400))
     ctx.extra["gen_s"] = round(time.time() - t0, 1)
     evaluate(ctx, cases)
     permutation_check(ctx, rng, ctx.scale(30, 200))
